@@ -424,17 +424,10 @@ func (fr *frame) visit(instr ssa.Instruction) continuation {
 		panic("phi reached in visit")
 
 	case *ssa.Send:
-		ch := fr.get(instr.Chan).(*chanV)
-		if ch == nil {
-			panic(m.unsupported("send on nil channel"))
-		}
-		if len(ch.buf) >= ch.cap {
-			panic(m.unsupported("send on full/unbuffered channel (would block)"))
-		}
-		ch.buf = append(ch.buf, fr.get(instr.X))
+		m.chanSend(fr.get(instr.Chan).(*chanV), fr.get(instr.X))
 
 	case *ssa.Select:
-		panic(m.unsupported("select"))
+		fr.set(instr, m.chanSelect(fr, instr))
 
 	default:
 		panic(m.unsupported("instruction %T", instr))
